@@ -50,33 +50,47 @@ func RandString(n int, pool string) string {
 	return string(b)
 }
 
-// HeredocTag return a random here-document delimiter ("EOF" and ten random upper letters)
-// for the given document bodies. The first letter of the delimiter is moved away from "E"
-// when a line of a body starts with it: a line that begins like the delimiter is re-read by
-// the shell, and dash (the /bin/sh of many systems) loses a byte >= 0x80 that follows such
-// a partial match, so a value line like "Eé" would reach the variable damaged.
+// HeredocTag return a random here-document delimiter ("EOF" and ten random upper letters,
+// with one more letter in front when needed) for the given document bodies. A body line that
+// begins like the delimiter is re-read by the shell, and dash (the /bin/sh of many systems)
+// loses a byte >= 0x80 that follows such a partial match, so a value line like "Eé" would
+// reach the variable damaged. The delimiter is therefore chosen so that no body line starts
+// with a non-empty prefix of it followed by such a byte (and no line equals it).
 func HeredocTag(bodies ...string) string {
-	var (
-		used [256]bool
-		tag  = "EOF" + RandString(10, UpperAlphaBytes)
-	)
-	for _, body := range bodies {
-		lineStart := true
-		for i := 0; i < len(body); i++ {
-			if lineStart {
-				used[body[i]] = true
-			}
-			lineStart = body[i] == '\n'
-		}
-	}
-	if !used[tag[0]] {
+	tag := "EOF" + RandString(10, UpperAlphaBytes)
+	if heredocTagFits(tag, bodies) {
 		return tag
 	}
 	for i := 0; i < len(AlphaBytes); i++ {
 		first := AlphaBytes[(i+len(LowerAlphaBytes))%len(AlphaBytes)] // upper letters first
-		if !used[first] {
-			return string(first) + tag
+		candidate := string(first) + "EOF" + RandString(10, UpperAlphaBytes)
+		if heredocTagFits(candidate, bodies) {
+			return candidate
 		}
 	}
 	return tag
+}
+
+func heredocTagFits(tag string, bodies []string) bool {
+	for _, body := range bodies {
+		for start := 0; start <= len(body); {
+			end := start
+			for end < len(body) && body[end] != '\n' {
+				end++
+			}
+			line := body[start:end]
+			if line == tag {
+				return false
+			}
+			k := 0
+			for k < len(line) && k < len(tag) && line[k] == tag[k] {
+				k++
+			}
+			if k >= 1 && k < len(line) && line[k] >= 0x80 {
+				return false
+			}
+			start = end + 1
+		}
+	}
+	return true
 }
